@@ -187,6 +187,8 @@ class _Loader(importlib.abc.Loader):
             module.__dict__["np"] = npshim.np
         if "warn" in module.__dict__:
             module.__dict__["warn"] = _no_warn
+        if "make_tuple" in module.__dict__:
+            module.__dict__["make_tuple"] = symstr.literal_tuple
 
 
 class _Finder(importlib.abc.MetaPathFinder):
